@@ -412,28 +412,99 @@ error. -/
 theorem timestamp_read_total (r : PDur) : (timestampRead r).isPanic = false := timestampRead_not_panic r
 theorem duration_read_total (r : PDur) : (durationRead r).isPanic = false := durationRead_not_panic r
 
-/-- exact characterisation: a `Duration` is accepted iff `seconds + trunc(nanos / 10⁹)` is an `i64`, and the
-value is the normalised duration worth `seconds·10⁹ + nanos` nanoseconds -/
+/-- exact characterisation: a `Duration` is accepted iff `seconds + trunc(nanos / 10⁹)` is an `i64` **and** the value is
+not below `i64::MIN` whole seconds (`−2⁶³·10⁹ ≤ seconds·10⁹ + nanos`); the result is the normalised duration of that value -/
 theorem duration_read_ok_iff (s n : Int) :
-    (∃ d, durationRead ⟨some s, some n⟩ = .ok d) ↔ inI64 (s + n.tdiv 1000000000) = true := by
+    (∃ d, durationRead ⟨some s, some n⟩ = .ok d) ↔
+      (inI64 (s + n.tdiv 1000000000) = true ∧ -9223372036854775808 * 1000000000 ≤ s * 1000000000 + n) := by
   show (∃ d, durationFromParts s n = .ok d) ↔ _
   constructor
   · intro ⟨d, hd⟩
+    obtain ⟨hpre, hc⟩ := (durationFromParts_ok_iff s n d).mp hd
     cases hb : inI64 (s + n.tdiv 1000000000) with
-    | true => rfl
-    | false => rw [(durationFromParts_spec s n).2 hb] at hd; cases hd
-  · intro hb
-    obtain ⟨d, h1, -⟩ := (durationFromParts_spec s n).1 hb
-    exact ⟨d, h1⟩
+    | false => rw [(durationFromPartsPre12_spec s n).2 hb] at hpre; cases hpre
+    | true =>
+      obtain ⟨d', h1, h2, h3, h4⟩ := (durationFromPartsPre12_spec s n).1 hb
+      rw [h1] at hpre; cases hpre
+      refine ⟨rfl, ?_⟩
+      have h3' := (inI64_iff _).mp h3
+      obtain ⟨a, b, c, e⟩ := h2
+      unfold I64_MIN at hc
+      omega
+  · intro ⟨hb, hv⟩
+    obtain ⟨d, h1, h2, h3, h4⟩ := (durationFromPartsPre12_spec s n).1 hb
+    refine ⟨d, (durationFromParts_ok_iff s n d).mpr ⟨h1, ?_⟩⟩
+    have h3' := (inI64_iff _).mp h3
+    obtain ⟨a, b, c, e⟩ := h2
+    unfold I64_MIN
+    omega
 
 theorem duration_read_value (s n : Int) (d : Dur) (h : durationRead ⟨some s, some n⟩ = .ok d) :
-    d.secs * 1000000000 + d.nanos = s * 1000000000 + n ∧ Norm d := by
-  have hb : inI64 (s + n.tdiv 1000000000) = true := (duration_read_ok_iff s n).mp ⟨d, h⟩
-  obtain ⟨d', h1, h2, -, h4⟩ := (durationFromParts_spec s n).1 hb
-  have : durationFromParts s n = .ok d := h
-  rw [h1] at this
-  cases this
-  exact ⟨h4, h2⟩
+    d.secs * 1000000000 + d.nanos = s * 1000000000 + n ∧ Norm d ∧ (d.secs > I64_MIN ∨ d.nanos ≥ 0) := by
+  have h' : durationFromParts s n = .ok d := h
+  obtain ⟨hpre, hc⟩ := (durationFromParts_ok_iff s n d).mp h'
+  cases hb : inI64 (s + n.tdiv 1000000000) with
+  | false => rw [(durationFromPartsPre12_spec s n).2 hb] at hpre; cases hpre
+  | true =>
+    obtain ⟨d', h1, h2, -, h4⟩ := (durationFromPartsPre12_spec s n).1 hb
+    rw [h1] at hpre; cases hpre
+    exact ⟨h4, h2, hc⟩
+
+/-- **duration_build_total.** Re-encoding (`build()`, used for hashing and re-gossiping a received message) of every
+accepted duration does not overflow, even with overflow checks. -/
+theorem duration_build_total (s n : Int) (d : Dur) (h : durationRead ⟨some s, some n⟩ = .ok d) :
+    (durationBuild d).isPanic = false ∧ (durationBuild d = .ok (durationBuildWrap d)) := by
+  obtain ⟨_, hn, hc⟩ := duration_read_value s n d h
+  have hr : inI64 d.secs = true := by
+    have h' : durationFromParts s n = .ok d := h
+    obtain ⟨hpre, _⟩ := (durationFromParts_ok_iff s n d).mp h'
+    cases hb : inI64 (s + n.tdiv 1000000000) with
+    | false => rw [(durationFromPartsPre12_spec s n).2 hb] at hpre; cases hpre
+    | true =>
+      obtain ⟨d', h1, _, h3, _⟩ := (durationFromPartsPre12_spec s n).1 hb
+      rw [h1] at hpre; cases hpre; exact h3
+  have hr' := (inI64_iff _).mp hr
+  unfold durationBuild durationBuildWrap
+  by_cases hneg : d.nanos < 0
+  · have hin : inI64 (d.secs - 1) = true := (inI64_iff _).mpr (by unfold I64_MIN at hc; omega)
+    simp [hneg, hin, Res.isPanic]
+  · simp [hneg, Res.isPanic]
+
+/-- **F12 is load-bearing.** Between the repairs of F3 and F12 `read` accepted exactly one more family of inputs — the
+values below `i64::MIN` whole seconds — and on exactly those `build()` overflows: a panic with overflow checks, the
+wrapped value `(2⁶³−1, ·)` otherwise. Witness: `{seconds: i64::MIN + 1, nanos: −1_000_000_001}`. -/
+theorem duration_build_legacy_overflows_iff (s n : Int) (d : Dur) (h : durationFromPartsPre12 s n = .ok d) :
+    (durationBuild d).isPanic = true ↔ ¬ ∃ d', durationRead ⟨some s, some n⟩ = .ok d' := by
+  cases hb : inI64 (s + n.tdiv 1000000000) with
+  | false => rw [(durationFromPartsPre12_spec s n).2 hb] at h; cases h
+  | true =>
+    obtain ⟨d', h1, h2, h3, h4⟩ := (durationFromPartsPre12_spec s n).1 hb
+    rw [h1] at h; cases h
+    have h3' := (inI64_iff _).mp h3
+    obtain ⟨a, b, c, e⟩ := h2
+    rw [duration_read_ok_iff]
+    unfold durationBuild
+    by_cases hneg : d.nanos < 0
+    · by_cases hin : inI64 (d.secs - 1) = true
+      · have := (inI64_iff _).mp hin
+        simp only [hneg, hin, if_true, Res.isPanic, hb, true_and, Int.not_le]
+        constructor
+        · intro x; cases x
+        · intro x; omega
+      · have hin' : ¬ (-9223372036854775808 ≤ d.secs - 1 ∧ d.secs - 1 ≤ 9223372036854775807) := fun x => hin ((inI64_iff _).mpr x)
+        have hf : inI64 (d.secs - 1) = false := by simpa using hin
+        simp only [hneg, hf, if_true, Res.isPanic, hb, true_and, Int.not_le, Bool.false_eq_true, if_false, true_iff]
+        omega
+    · simp only [hneg, if_false, Res.isPanic, hb, true_and, Int.not_le]
+      constructor
+      · intro x; cases x
+      · intro x; omega
+
+theorem duration_build_legacy_witness :
+    durationFromPartsPre12 (-9223372036854775807) (-1000000001) = .ok ⟨-9223372036854775808, -1⟩ ∧
+    (durationBuild ⟨-9223372036854775808, -1⟩).isPanic = true ∧
+    durationBuildWrap ⟨-9223372036854775808, -1⟩ = (9223372036854775807, 999999999) ∧
+    durationRead ⟨some (-9223372036854775807), some (-1000000001)⟩ = .err "duration overflow" := by decide
 
 /-- **F3 is load-bearing.** The pre-repair `Duration::new(seconds, nanos)` panics on
 `{seconds: i64::MAX, nanos: 1_000_000_000}` — and on exactly the inputs the repaired code rejects. -/
@@ -443,11 +514,9 @@ theorem timestamp_read_legacy_panics :
     (timestampRead ⟨some 9223372036854775807, some 1000000000⟩) = .err "duration overflow" := by decide
 
 theorem duration_legacy_panics_iff (s n : Int) :
-    (durationReadLegacy ⟨some s, some n⟩).isPanic = true ↔ ¬ ∃ d, durationRead ⟨some s, some n⟩ = .ok d := by
-  rw [duration_read_ok_iff]
+    (durationReadLegacy ⟨some s, some n⟩).isPanic = true ↔ inI64 (s + n.tdiv 1000000000) = false := by
   show (Dur.newLegacy s n).isPanic = true ↔ _
-  rw [newLegacy_panic_iff]
-  simp
+  exact newLegacy_panic_iff s n
 
 /-- **timestamp_display_total.** Every accepted timestamp can be rendered with `Display` (what the debug page does
 with the timestamp of every stored, validly signed `NetAddress`). -/
@@ -478,10 +547,20 @@ through it). -/
 theorem timestamp_debug_total (d : Dur) : (utcDebug d).isPanic = false := rfl
 
 /-- **F11 is load-bearing.** Before the repair, `{:?}` of an accepted timestamp panicked exactly when
-`seconds = i64::MIN` and the normalised nanos are negative; witness `{seconds: i64::MIN, nanos: -1}`. -/
+`seconds = i64::MIN` and the normalised nanos are negative; witness `{seconds: i64::MIN, nanos: -1}` (accepted by `read` until the repair of F12). -/
 theorem timestamp_debug_legacy_panics :
-    ∃ d, timestampRead ⟨some (-9223372036854775808), some (-1)⟩ = .ok d ∧ (utcDebugLegacy d).isPanic = true := by
+    ∃ d, durationFromPartsPre12 (-9223372036854775808) (-1) = .ok d ∧ (utcDebugLegacy d).isPanic = true := by
   refine ⟨⟨-9223372036854775808, -1⟩, by decide, by decide⟩
+
+/-- since the repair of F12 `read` no longer produces the values on which the pre-F11 `Debug` panicked -/
+theorem timestamp_debug_legacy_unreachable_after_f12 (s n : Int) (d : Dur)
+    (h : durationRead ⟨some s, some n⟩ = .ok d) : (utcDebugLegacy d).isPanic = false := by
+  obtain ⟨_, _, hc⟩ := duration_read_value s n d h
+  unfold utcDebugLegacy inSystemTimeRange
+  by_cases h1 : d.secs = I64_MIN
+  · have : ¬ d.nanos < 0 := by unfold I64_MIN at hc h1; omega
+    simp [h1, this, Res.isPanic]
+  · simp [h1, Res.isPanic]
 
 theorem timestamp_debug_legacy_panics_iff (d : Dur) :
     (utcDebugLegacy d).isPanic = true ↔ (d.secs = -9223372036854775808 ∧ d.nanos < 0) := by
